@@ -54,13 +54,21 @@ class Cat:
     def get_number_of_events(self):
         return self.event_count
 
+    def _copy(self):
+        c = Cat(self.i, self.gen)
+        c.nfilter, c.nspatial, c.region, c.name = self.nfilter, self.nspatial, self.region, self.name
+        return c
+
     def filter(self, statements=None, in_place=True):
-        self.nfilter += 1
-        return self
+        # like the real catalog: in_place=False leaves this object untouched and returns a filtered copy
+        tgt = self if in_place else self._copy()
+        tgt.nfilter += 1
+        return tgt
 
     def filter_spatial(self, region=None, update_stats=False, in_place=True):
-        self.nspatial += 1
-        return self
+        tgt = self if in_place else self._copy()
+        tgt.nspatial += 1
+        return tgt
 
     def apply_mct(self, *a, **k):
         return self
